@@ -64,7 +64,10 @@ where
 
         let size = if self.count.0.max_size > 0 { req.size() } else { 0 };
         let task_guard = self.count.get(size);
-        let result = ctx.call(&self.service, req).await;
+        // readiness is checked by the dispatcher before the request is dispatched;
+        // waiting for it again here would delay this request behind the ones that
+        // arrive after it (a payload chunk could overtake its PUBLISH)
+        let result = ctx.call_nowait(&self.service, req).await;
         drop(task_guard);
         result
     }
